@@ -194,6 +194,15 @@ int main(int argc, char ** argv) {
     install_terminate();
     std::string mode = argv[1];
     if (mode == "replay") {
+        {   // the factories called the way a user writes them, with arguments of MIXED arithmetic types (exact dyadic values)
+            auto chk = [&](const char * what, double got, double want) { ++g_checks; if (got != want) mismatch(std::string("factory-mixed-arguments/") + what, {{"got", got}, {"want", want}}); };
+            auto s2 = ca::affine<2, float>::scaling(2, 0.5f);              chk("scaling2f(0,0)", s2(0, 0), 2);     chk("scaling2f(1,1)", s2(1, 1), 0.5);  chk("scaling2f(0,1)", s2(0, 1), 0);
+            auto s3 = ca::affine<3, double>::scaling(4, 0.25, 1.5f);        chk("scaling3d(1,1)", s3(1, 1), 0.25);  chk("scaling3d(2,2)", s3(2, 2), 1.5);
+            auto t3 = ca::affine<3, float>::translation(10, -20, 0.75);    chk("translation3f(0,3)", t3(0, 3), 10); chk("translation3f(1,3)", t3(1, 3), -20); chk("translation3f(2,3)", t3(2, 3), 0.75);
+            auto t2 = ca::affine<2, double>::translation(1, 2.5);          chk("translation2d(1,2)", t2(1, 2), 2.5);
+            ca::vector<2, float> v2(1, 2.5f);                               chk("vector2f(1)", v2(1), 2.5);
+            auto p = s2 * ca::affine<2, float>::translation(1, 0.25f);     chk("product(1,2)", p(1, 2), 0.125);    chk("product(0,2)", p(0, 2), 2);
+        }
         for (auto & c : read_ndjson(argv[2])) {
             ++g_cases;
             if (c["kind"] == "matmul") { run_matmul_any<float>(c); run_matmul_any<double>(c); continue; }
